@@ -43,11 +43,11 @@ open Pdt Pdt.Reader Pdt.Represent Pdt.Blocks Pdt.Grid
   `match` versus `search` patterns), so equivalent rewrites (`"**" + name`, `re.match(pattern, name)`, `ws.values`,
   helper generators, swapped if/else arms) raise no alarm. -/
 
-/-- every attribute the Excel writer module assigns on an object (the style loop's `cell.font = …`, in whichever
-    function it lives) is a style attribute — `font`, `fill` or `alignment` — and nothing in the module assigns
-    `.value` / `._value` of anything -/
+/-- no attribute the Excel writer module assigns on an object (the style loop's `cell.font = …`, in whichever function
+    it lives; bookkeeping on the worksheet) is a cell's value — `value`, `_value`, `internal_value`, `data_type` — and
+    nothing in the module assigns `.value` / `._value` of anything -/
 theorem style_writes_pinned :
-    Gen.excelStyleWrites.all (fun a => ["alignment", "fill", "font"].contains a) = true ∧
+    ["value", "_value", "internal_value", "data_type"].all (fun a => !Gen.excelStyleWrites.contains a) = true ∧
     Gen.excelValueWrites = [] := by decide
 
 theorem represent_consts_pinned : Gen.sealant = "-".toList ∧ Gen.naRepDefault = "-".toList := by decide
